@@ -6,6 +6,8 @@ import (
 	"bytes"
 	"fmt"
 	"math"
+
+	"github.com/shutter-network/shutter/shlib/shcrypto"
 )
 
 // The property oracle of C04, written from the property text over the case description (the
@@ -117,4 +119,51 @@ func WfCore(mat *Material, st *State, m *Msg) (bool, string) {
 		}
 	}
 	return true, ""
+}
+
+// ElementsValid is the element-wise reference verdict with the real cryptography: every share
+// (key) of the message must be, by shcrypto.VerifyEpochSecretKeyShare (VerifyEpochSecretKey),
+// the valid share of the claimed sender (the valid epoch secret key) for ITS OWN identity under
+// the key generation result that counts for the named keyper set - or, for keys, byte-equal to
+// the key stored for (eon, identity). Returns the first offending position. Messages for which
+// no such result exists are not judged here (ok = true).
+func ElementsValid(mat *Material, st *State, m *Msg) (bool, int) {
+	_, dkg, _ := st.NamedSet(m.Eon)
+	if dkg == nil || (m.Type != "shares" && m.Type != "keys") {
+		return true, -1
+	}
+	if m.Type == "shares" && m.Kidx >= uint64(dkg.NShares) {
+		return true, -1
+	}
+	for i, it := range m.Items {
+		b := mat.Bytes(it.Val)
+		id := unhex(it.Ident)
+		if m.Type == "shares" {
+			sh := new(shcrypto.EpochSecretKeyShare)
+			if err := sh.Unmarshal(b); err != nil {
+				return false, i
+			}
+			if !shcrypto.VerifyEpochSecretKeyShare(sh, mat.Sets[dkg.Set].EonPublicKeyShare(int(m.Kidx)%mat.N), shcrypto.ComputeEpochID(id)) {
+				return false, i
+			}
+			continue
+		}
+		stored := false
+		for _, k := range st.Keys {
+			if k.Eon == int64(m.Eon) && k.Ident == it.Ident && bytes.Equal(mat.Bytes(k.Val), b) {
+				stored = true
+			}
+		}
+		if stored {
+			continue
+		}
+		k := new(shcrypto.EpochSecretKey)
+		if err := k.Unmarshal(b); err != nil {
+			return false, i
+		}
+		if ok, err := shcrypto.VerifyEpochSecretKey(k, mat.Sets[dkg.Set].EonPublicKey(), id); err != nil || !ok {
+			return false, i
+		}
+	}
+	return true, -1
 }
